@@ -1545,7 +1545,8 @@ def elasticity_loss(
     kwargs = dict(mode=mode, sigma=sigma, spacing=spacing, stride=stride)
     which = FlowDerivativeKeys.jacobian(spatial_dims=D)
     deriv = flow_derivatives(u, which=which, **kwargs)
-    loss = torch.zeros((N, 1) + u.shape[2:], dtype=u.dtype, device=u.device)
+    shape = deriv[FlowDerivativeKeys.symbol(0, 0)].shape
+    loss = torch.zeros((N, 1) + shape[2:], dtype=u.dtype, device=u.device)
     if lambd != 0:
         for i in range(D):
             loss = loss.add_(deriv[FlowDerivativeKeys.symbol(i, i)])
